@@ -1,7 +1,8 @@
 """C11 — random-walk diffusion: the real Tracker on stub modules with an injected, seeded generator.
 
 Small runs (a few particles, 1..50 steps) are replayed in Coq against Model/Diffusion.v draw by draw;
-point clouds (2*10^4 .. 10^6 particles) are judged statistically by the oracle only.
+point clouds (2*10^4 .. 10^6 particles) are judged statistically by the oracle only; c11_scale.py adds fixed cases at
+realistic scale (10^3 .. 2.6*10^5 particles in a step, >1000 steps, ladim.main) with independence at ALL lags.
 """
 from __future__ import annotations
 
@@ -9,6 +10,8 @@ import bisect
 import math
 
 import numpy as np
+
+import c11_scale
 
 
 PROP = "C11"
@@ -141,7 +144,9 @@ def gen_params(rng, mode):
 
 def gen_cases(ctx):
     rng = ctx.rng
-    out = []
+    # first, at a fixed position and not drawn from rng: the property at realistic scale (c11_scale.py) — 1000..262145
+    # particles in one step, a growing cloud, more than a thousand steps, 40000 particles through ladim.main
+    out = c11_scale.scale_cases(ctx.quick)
     nsmall = 170 if ctx.quick else 1800
     for i in range(nsmall):
         mode = MODES[i % len(MODES)] if i < 4 * len(MODES) else rng.choice(MODES[1:5] + MODES[1:5] + MODES)
@@ -506,6 +511,10 @@ def eval_warmcloud(desc, ctx):
 
 
 def eval_case(desc, ctx):
+    if desc["k"] == "scale":
+        return c11_scale.eval_scale(desc, ctx)
+    if desc["k"] == "scalemain":
+        return c11_scale.eval_scalemain(desc, ctx)
     if desc["k"] == "warmcloud":
         return eval_warmcloud(desc, ctx)
     if desc["k"] == "romsgrid":
